@@ -1,9 +1,11 @@
 import IcyVerif.Drv.Palette
+import IcyVerif.Drv.PalStream
 open IcyVerif.Drv
 
 def dispatch (line : String) : String :=
   match line.trimAscii.toString.splitOn " " with
   | "palette" :: rest => Palette.handle rest
+  | "palstream" :: rest => PalStream.handle rest
   | _ => "bad-op"
 
 partial def loop (h : IO.FS.Stream) (out : IO.FS.Stream) : IO Unit := do
